@@ -59,6 +59,22 @@ var scenarios = []scenario{
 	{name: "c-resume-full-slot", ops: []scOp{{0, "writefail-on", ""}, {0.05, "send", ""}, {0.3, "disconnect", ""}, {0.4, "writefail-off", ""}, {0.5, "connect", ""}, {2.2, "send", ""}},
 		reply: map[string]float64{"r2": 0.1}, end: 4.0, only: []string{"handler.cancel|1"}, prop: "C07", scale: 4,
 		sigs: []string{"never-concluded"}},
+	// C07: the connection drops while the time-out of r1 is being handled (the cancel callback is slow, so the pump has
+	// consumed the timer's expiry but not re-armed it yet): Pause must return, and after the reconnection r2 is served
+	{name: "c-pause-during-timeout", ops: []scOp{{0, "send", ""}, {1.3, "disconnect", ""}, {3.0, "connect", ""}, {3.2, "send", ""}},
+		reply: map[string]float64{"r1": -1, "r2": 0.1}, end: 5.0, only: []string{"handler.cancel|1"}, prop: "C07", scale: 4,
+		sigs: []string{"never-concluded"}},
+	// C07: the pump has taken the ready token and is about to dispatch r1 (its queue Peek is slow); the link flaps meanwhile, so
+	// Resume posts another ready token; the write of r1 then fails and the pump itself has to post the token of the completion:
+	// it must not block on its own full slot; r2 is served afterwards
+	{name: "c-ready-slot-self-block", ops: []scOp{{0, "writefail-on", ""}, {0.05, "disconnect", ""}, {0.1, "send", ""}, {0.3, "connect", ""}, {0.6, "disconnect", ""}, {0.8, "connect", ""}, {2.5, "writefail-off", ""}, {3.0, "send", ""}},
+		reply: map[string]float64{"r2": 0.1}, end: 5.0, only: []string{"queue.Peek<|1"}, prop: "C07", scale: 4,
+		sigs: []string{"never-concluded"}},
+	// C07: the pump is inside a slow Write of r1; r2 and r3 are sent meanwhile (the second wake-up token finds the slot full) and
+	// the link drops (Pause wants the dispatcher lock): every call returns and after the reconnection everything is served
+	{name: "c-send-while-pump-busy", ops: []scOp{{0, "send", ""}, {0.1, "send", ""}, {0.2, "send", ""}, {0.4, "disconnect", ""}, {2.5, "connect", ""}},
+		reply: map[string]float64{"r1": 0.1, "r2": 0.1, "r3": 0.1}, end: 5.5, only: []string{"ws.Write<|1"}, prop: "C07", scale: 4,
+		sigs: []string{"never-concluded"}},
 	// the connection drops while the dispatcher is inside Write (which then fails); two more requests follow while
 	// disconnected; after the reconnection both must be written and answered (C10)
 	{name: "c-drop-during-write", ops: []scOp{{0, "send", ""}, {0.3, "disconnect", ""}, {0.4, "send", ""}, {0.45, "send", ""}, {2.0, "connect", ""}},
